@@ -187,7 +187,7 @@ def run(chk):
                 "ok:" + qtylib.show_unit(sh.unit)))
             idx.append(("shown", n))
     bad = qtylib.coq_mismatches(items, "c03")
-    mism, registry_rewrites, shown_oos = {}, 0, 0
+    mism, registry_rewrites, shown_oos, size_ties = {}, 0, 0, 0
     for k, v in bad.items():
         if isinstance(idx[k], tuple):
             n = idx[k][1]
@@ -201,7 +201,14 @@ def run(chk):
             else:
                 mism[n] = "displayed result: model " + v
         else:
-            mism[idx[k]] = v
+            n = idx[k]
+            if v.startswith("ok:") and obs[n].kind == "Q":
+                mu = qtylib.parse_unit(v.split(":")[1])
+                if tbl.exact_unit(mu) and tbl.exact_unit(obs[n].unit) and tbl.dim(mu) == tbl.dim(obs[n].unit) \
+                        and qtylib.rel_close(tbl.scale(mu), tbl.scale(obs[n].unit), 1e-9):
+                    size_ties += 1      # two operand units of equal size up to rounding: the f64 `<=` of
+                    continue            # smaller_unit is not an exact-level fact; the value agrees
+            mism[n] = v
 
     if os.environ.get("NV_DEBUG"):
         for n in list(mism)[:8]:
@@ -267,7 +274,7 @@ def run(chk):
         "skipped_float_range": skipped_range, "outside_exact_scope": skipped_scope,
         "model_mismatches": len(mism), "oracle_failures": len(failing),
         "displayed_unit_texts_checked": text_checked, "displayed_results_vs_model": sum(1 for i in idx if isinstance(i, tuple)),
-        "displayed_results_rewritten_by_registry": registry_rewrites, "displayed_results_outside_exact_scope": shown_oos,
+        "displayed_results_rewritten_by_registry": registry_rewrites, "model_unit_size_ties_not_compared": size_ties, "displayed_results_outside_exact_scope": shown_oos,
         "relative_tolerance": REL,
         "samples": [{"kind": cases[i][0], "mode": cases[i][1], "rpn": qtylib.tree_rpn(cases[i][2]),
                      "source": cases[i][3], "implementation": obs[i].raw} for i in pick],
